@@ -463,10 +463,10 @@ Proof.
         split; auto. split; auto.
         intros t2 H. apply (P0 t2) in H. lia.
       - destruct (sp_unique sp); [discriminate|]. inversion Ep; subst p.
-        destruct T0 as (T1 & T2 & T3 & T4 & T5 & T6).
+        pose proof T0 as (T1 & T2 & T3 & T4 & T5 & T6).
         apply alias_in_pool in Ea as (cn' & obs & H1 & H2 & H3); auto.
         destruct (T3 ti cn' (sp_name sp) i obs H1 H2) as [Al Lay].
-        split; [apply TI_cmon; repeat split; auto|]. split; [reflexivity|].
+        split; [apply TI_cmon; exact T0|]. split; [reflexivity|].
         assert (Hin : In i (pool_mids (get_trainer s0 ti))) by (apply pool_mids_named; eauto).
         split; [simpl; apply (P0 ti); auto|].
         change (get_mon (cmon_bind cell (sp_name sp) i s0)) with (get_mon s0).
@@ -490,4 +490,507 @@ Proof.
       rewrite deregister_mon, Nat.eqb_refl. destruct (get_mon s1 i); simpl. discriminate. }
   destruct existing as [k|] eqn:Ex; destruct (sp_unique sp) eqn:Eu; auto.
   inversion E; subst; auto.
+Qed.
+
+Lemma add_specs_TI sps : forall s ti cn s' r,
+  add_specs s ti cn sps = (s', r) -> Inv1 s -> TI s -> TI s'.
+Proof.
+  induction sps as [|sp tl IH]; simpl; intros s ti cn s' r E I T.
+  - inversion E; subst; auto.
+  - destruct (pool_add_monitor s ti cn sp) as [s1 [e|]] eqn:Ep.
+    + inversion E; subst. eapply pool_add_monitor_TI; eauto.
+    + eapply IH; [exact E| |].
+      * eapply pool_add_monitor_Inv1; eauto.
+      * eapply pool_add_monitor_TI; eauto.
+Qed.
+
+(* deleting a whole group (MonitorPool.del_observed) together with the cell entry *)
+Lemma del_cell_TI s ti cn s' r : del_cell s ti cn = (s', r) -> TI s -> TI s'.
+Proof.
+  unfold del_cell. intros E T.
+  destruct (amem cn (t_cells (get_trainer s ti))) eqn:Em; simpl in E; [|inversion E; subst; auto].
+  inversion E; subst; clear E. unfold pool_del_observed.
+  set (t := get_trainer s ti).
+  set (s1 := match alookup cn (t_pool t) with
+             | Some g => upd_trainer ti (fun t => set_pool (adel cn (t_pool t)) t) (deregister_all (map snd g) s)
+             | None => s
+             end).
+  (* everything the three trainer updates do, as one update *)
+  set (f := fun t : trainer => set_cells (adel cn (t_cells t)) (set_observed (adel cn (t_observed t)) (set_pool (adel cn (t_pool t)) t))).
+  set (sm := match alookup cn (t_pool t) with Some g => deregister_all (map snd g) s | None => s end).
+  assert (Tm : TI sm) by (unfold sm; destruct (alookup cn (t_pool t)); auto; apply TI_deregister_all; auto).
+  assert (Trm : trainers sm = trainers s).
+  { unfold sm. destruct (alookup cn (t_pool t)); auto. apply deregister_all_trainers. }
+  assert (Eq : upd_trainer ti (fun t => set_cells (adel cn (t_cells t)) t)
+                 (upd_trainer ti (fun t => set_observed (adel cn (t_observed t)) t) s1) = upd_trainer ti f sm).
+  { unfold s1, sm. pose proof T as (T1 & _). destruct (T1 ti) as (_ & _ & ND & _). fold t in ND.
+    destruct (alookup cn (t_pool t)) as [g|] eqn:Eg.
+    - unfold upd_trainer, set_trainers. simpl. rewrite !upd_upd. reflexivity.
+    - unfold upd_trainer, set_trainers. simpl. rewrite upd_upd. f_equal.
+      apply upd_ext_at with (d := dummy_trainer). fold (get_trainer s ti). fold t. unfold f.
+      rewrite (adel_absent cn (t_pool t)) by (apply alookup_None; auto). destruct t; reflexivity. }
+  rewrite Eq. clear Eq.
+  (* the group's monitors were deregistered in sm; now remove the entries *)
+  pose proof Tm as (T1 & T2 & T3 & T4 & T5 & T6).
+  assert (Gm : get_trainer sm = get_trainer s) by (unfold get_trainer; rewrite Trm; reflexivity).
+  pose proof (T1 ti) as K. rewrite Gm in K. fold t in K. destruct K as (KA & KB & KC & KD).
+  assert (G : forall k, get_trainer (upd_trainer ti f sm) k = f t /\ k = ti \/
+                        get_trainer (upd_trainer ti f sm) k = get_trainer sm k).
+  { intros k. rewrite get_trainer_upd. destruct (Nat.eqb ti k && Nat.ltb ti (length (trainers sm))) eqn:E2; auto.
+    apply andb_true_iff in E2 as [E2 _]. apply Nat.eqb_eq in E2. rewrite Gm. auto. }
+  assert (Ent : forall c m j, In (c, m, j) (pool_named (f t)) <-> In (c, m, j) (pool_named t) /\ c <> cn).
+  { intros c m j. unfold f. change (pool_named (set_cells _ (set_observed _ (set_pool (adel cn (t_pool t)) t))))
+      with (pool_named (set_pool (adel cn (t_pool t)) t)). apply pool_named_adel. exact (conj KA (conj KB (conj KC KD))). }
+  assert (Sub : forall j, In j (pool_mids (f t)) -> In j (pool_mids t)).
+  { intros j. rewrite !pool_mids_named. intros (c & m & H). apply Ent in H. exists c, m. tauto. }
+  unfold TI. change (mons (upd_trainer ti f sm)) with (mons sm). change (get_mon (upd_trainer ti f sm)) with (get_mon sm).
+  split; [|split; [|split; [|split; [|split]]]].
+  - intros k. destruct (G k) as [[-> _]| -> ]; auto. unfold f, keys_ok. simpl.
+    split; [apply NoDup_keys_adel; auto|]. split; [rewrite KB; reflexivity|]. split; [apply NoDup_keys_adel; auto|].
+    intros c g H. pose proof H as H'. apply In_adel in H; auto. destruct H as [H N]. destruct (KD c g H) as [K1 K2]. split; auto.
+    simpl in N. apply in_map_iff in K2 as [[c' v] [E1 E2]]. simpl in E1; subst c'. apply in_map_iff. exists (c, v). split; auto.
+    apply In_adel; auto.
+  - intros k. destruct (G k) as [[-> ->]| -> ]; auto. unfold f; simpl. intros Hd.
+    specialize (T2 ti). rewrite Gm in T2. fold t in T2. destruct (T2 Hd) as [P C]. rewrite P, C. auto.
+  - intros k c m j c0. destruct (G k) as [[-> ->]| -> ]; [|apply T3]. intros H1 H2. apply Ent in H1 as [H1 N].
+    unfold f in H2; simpl in H2. rewrite alookup_adel_other in H2 by auto.
+    apply (T3 ti c m j c0); rewrite Gm; auto.
+  - intros t1 t2 j. destruct (G t1) as [[-> ->]| -> ]; destruct (G t2) as [[-> ->]| -> ]; intros H1 H2.
+    + reflexivity.
+    + apply (T4 ti t2 j); auto. rewrite Gm. auto.
+    + apply (T4 t1 ti j); auto. rewrite Gm. auto.
+    + apply (T4 t1 t2 j); auto.
+  - intros k j. destruct (G k) as [[-> ->]| -> ]; [|apply T5]. intros H1 H2.
+    change (t_training (f t)) with (t_training t). specialize (T5 ti j). rewrite Gm in T5. apply T5; auto.
+  - exact T6.
+Qed.
+
+Lemma state_upd_trainer_id ti f s : f (get_trainer s ti) = get_trainer s ti -> upd_trainer ti f s = s.
+Proof.
+  intros H. unfold upd_trainer. rewrite (upd_id ti f (trainers s) dummy_trainer H). destruct s; reflexivity.
+Qed.
+
+Lemma pool_del_observed_absent s ti cn :
+  TI s -> amem cn (t_cells (get_trainer s ti)) = false -> pool_del_observed ti cn s = s.
+Proof.
+  intros (T1 & _) Hm. destruct (T1 ti) as (A & B & C & D).
+  assert (Nc : ~ In cn (map fst (t_cells (get_trainer s ti)))).
+  { intros K. apply amem_In in K. congruence. }
+  unfold pool_del_observed.
+  assert (E : alookup cn (t_pool (get_trainer s ti)) = None).
+  { apply alookup_None. intros K. apply in_map_iff in K as [[c g] [E1 E2]]. simpl in E1; subst c. apply Nc. apply (D cn g E2). }
+  rewrite E. apply state_upd_trainer_id. rewrite adel_absent by (rewrite B; auto). destruct (get_trainer s ti); reflexivity.
+Qed.
+
+Lemma register_cell_TI w s ti cn c hp s' r :
+  register_cell w s ti cn c hp = (s', r) -> t_alive (get_trainer s ti) = true -> Inv1 s -> TI s -> TI s'.
+Proof.
+  unfold register_cell. intros E Hal I T.
+  destruct (amem cn (t_cells (get_trainer s ti))) eqn:Em; [inversion E; subst; auto|].
+  rewrite (pool_del_observed_absent _ _ _ T Em) in E.
+  pose proof T as (T1 & T2 & T3 & T4 & T5 & T6). destruct (T1 ti) as (A & B & C & D).
+  assert (Nc : ~ In cn (map fst (t_cells (get_trainer s ti)))).
+  { intros K. apply amem_In in K. congruence. }
+  assert (Ht : ti < length (trainers s)).
+  { destruct (Nat.lt_ge_cases ti (length (trainers s))); auto. rewrite dummy_trainer_oob in Hal by auto. discriminate. }
+  set (s2 := upd_trainer ti (fun t => set_cells (aset cn c (t_cells t)) t) s) in *.
+  assert (G2 : get_trainer s2 ti = set_cells (aset cn c (t_cells (get_trainer s ti))) (get_trainer s ti)).
+  { unfold s2. rewrite get_trainer_upd_same; auto. }
+  rewrite G2 in E. simpl in E.
+  assert (E1 : amem cn (t_observed (get_trainer s ti)) = false) by (rewrite B; exact Em).
+  rewrite E1 in E.
+  assert (E2 : amem cn (t_pool (get_trainer s ti)) = false).
+  { destruct (amem cn (t_pool (get_trainer s ti))) eqn:K; auto. apply amem_In in K.
+    apply in_map_iff in K as [[c' g] [K1 K2]]. simpl in K1; subst c'. exfalso. apply Nc. apply (D cn g K2). }
+  rewrite E2 in E.
+  set (s3 := upd_trainer ti (fun t => set_observed (aset cn c (t_observed t)) t) s2) in *.
+  set (g := fun t : trainer => set_observed (aset cn c (t_observed t)) (set_cells (aset cn c (t_cells t)) t)).
+  assert (Eq : s3 = upd_trainer ti g s).
+  { unfold s3, s2, upd_trainer, set_trainers. simpl. rewrite upd_upd. reflexivity. }
+  assert (T3' : TI s3).
+  { rewrite Eq.
+    assert (G : forall k, get_trainer (upd_trainer ti g s) k = g (get_trainer s ti) /\ k = ti \/
+                          get_trainer (upd_trainer ti g s) k = get_trainer s k).
+    { intros k. rewrite get_trainer_upd. destruct (Nat.eqb ti k && Nat.ltb ti (length (trainers s))) eqn:E3; auto.
+      apply andb_true_iff in E3 as [E3 _]. apply Nat.eqb_eq in E3. auto. }
+    unfold TI. change (mons (upd_trainer ti g s)) with (mons s). change (get_mon (upd_trainer ti g s)) with (get_mon s).
+    split; [|split; [|split; [|split; [|split]]]].
+    - intros k. destruct (G k) as [[-> _]| -> ]; auto. unfold g, keys_ok; simpl.
+      split; [apply NoDup_keys_aset; auto|]. split; [rewrite B; reflexivity|]. split; [exact C|].
+      intros c' g' H. destruct (D c' g' H) as [K1 K2]. split; auto. apply keys_aset. auto.
+    - intros k. destruct (G k) as [[-> ->]| -> ]; auto. unfold g; simpl. rewrite Hal. discriminate.
+    - intros k c' m j c0. destruct (G k) as [[-> ->]| -> ]; [|apply T3].
+      change (pool_named (g (get_trainer s ti))) with (pool_named (get_trainer s ti)). unfold g; simpl.
+      intros H1 H2. apply (T3 ti c' m j c0); auto. rewrite alookup_aset_other in H2; auto.
+      intros ->. apply Nc. apply pool_named_In in H1 as (g' & H1 & _). apply (D cn g' H1).
+    - intros t1 t2 j. destruct (G t1) as [[-> ->]| -> ]; destruct (G t2) as [[-> ->]| -> ]; intros H1 H2.
+      + reflexivity.
+      + apply (T4 ti t2 j); auto.
+      + apply (T4 t1 ti j); auto.
+      + apply (T4 t1 t2 j); auto.
+    - intros k j. destruct (G k) as [[-> ->]| -> ]; [|apply T5]. intros H1 H2. apply (T5 ti j); auto.
+    - exact T6. }
+  assert (I3 : Inv1 s3).
+  { unfold s3. apply Inv1_trainers_only; auto. apply Inv1_trainers_only; auto. }
+  destruct (conn_info w c) as [dt cdel].
+  eapply add_specs_TI; eauto.
+Qed.
+
+Lemma add_monitor_TI s ti cn sp s' r : add_monitor s ti cn sp = (s', r) -> Inv1 s -> TI s -> TI s'.
+Proof.
+  unfold add_monitor. intros E I T.
+  destruct (negb (amem cn (t_cells (get_trainer s ti)))); [inversion E; subst; auto|].
+  eapply pool_add_monitor_TI; eauto.
+Qed.
+
+Lemma pool_del_monitor_TI s ti cn mn s' r : pool_del_monitor s ti cn mn = (s', r) -> TI s -> TI s'.
+Proof.
+  unfold pool_del_monitor. intros E T.
+  destruct (alookup cn (t_pool (get_trainer s ti))) as [g|] eqn:Eg; [|inversion E; subst; auto].
+  destruct (alookup cn (t_observed (get_trainer s ti))) as [cell|] eqn:Ec; [|inversion E; subst; auto].
+  destruct (alookup mn g) as [i|] eqn:Ei; [|inversion E; subst; auto].
+  inversion E; subst; clear E.
+  pose proof (TI_alive_of_cell _ _ _ _ T Ec) as Hal.
+  pose proof (TI_deregister i s T) as Td.
+  assert (Gd : get_trainer (deregister i s) = get_trainer s).
+  { unfold get_trainer. destruct (deregister_others i s) as (A & _). rewrite A. reflexivity. }
+  apply TI_shrink; auto. cbv zeta. rewrite Gd.
+  destruct T as (T1 & _). destruct (T1 ti) as (A & B & C & D).
+  pose proof (alookup_In _ _ _ Eg) as Ig. destruct (D cn g Ig) as [NDg Hcn].
+  (* the result equals deleting the entry, possibly dropping the emptied group *)
+  assert (Ent : forall c m j,
+            In (c, m, j) (pool_named (set_pool match adel mn g with
+                                               | [] => adel cn (t_pool (get_trainer s ti))
+                                               | _ :: _ => aset cn (adel mn g) (t_pool (get_trainer s ti))
+                                               end (get_trainer s ti))) ->
+            In (c, m, j) (pool_named (get_trainer s ti))).
+  { intros c m j. rewrite !pool_named_In. simpl. intros (g' & H1 & H2).
+    destruct (adel mn g) eqn:Ed.
+    - apply In_adel_weak in H1. eauto.
+    - apply In_aset in H1; auto. destruct H1 as [H1|[H1 _]]; [|eauto].
+      inversion H1; subst. rewrite <- Ed in H2. apply In_adel_weak in H2. eauto. }
+  split.
+  { unfold keys_ok; simpl. split; [exact A|]. split; [exact B|].
+    destruct (adel mn g) eqn:Ed.
+    - split; [apply NoDup_keys_adel; auto|]. intros c g' H. apply In_adel_weak in H. apply D; auto.
+    - split; [apply NoDup_keys_aset; auto|]. intros c g' H. apply In_aset in H; auto.
+      destruct H as [H|[H _]]; [|apply D; auto]. inversion H; subst. split; auto. rewrite <- Ed. apply NoDup_keys_adel; auto. }
+  split; [reflexivity|]. split; [reflexivity|]. split; [reflexivity|]. split.
+  - intros [[c m] j]. apply Ent.
+  - rewrite Hal. discriminate.
+Qed.
+
+Lemma TI_pool_alive s t i : TI s -> In i (pool_mids (get_trainer s t)) -> m_alive (get_mon s i) = true.
+Proof.
+  intros (T1 & _ & T3 & _) H. apply pool_mids_named in H as (cn & mn & H).
+  destruct (T1 t) as (_ & _ & _ & D). pose proof H as H'. apply pool_named_In in H' as (g & H1 & _).
+  destruct (D cn g H1) as [_ K]. apply in_map_iff in K as [[c' c] [E1 E2]]. simpl in E1; subst c'.
+  destruct (T1 t) as (A & _). apply (In_alookup _ _ _ A) in E2. destruct (T3 t cn mn i c H E2); auto.
+Qed.
+
+Lemma deregister_length i s : length (mons (deregister i s)) = length (mons s).
+Proof. unfold deregister. destruct (m_reg (get_mon s i)); auto. rewrite length_mons_upd_mon. reflexivity. Qed.
+Lemma reregister_length i s : length (mons (reregister i s)) = length (mons s).
+Proof.
+  unfold reregister. destruct (m_reg (get_mon s i)); auto. unfold do_register. rewrite length_mons_upd_mon. reflexivity.
+Qed.
+Lemma deregister_all_length l : forall s, length (mons (deregister_all l s)) = length (mons s).
+Proof. induction l as [|a tl IH]; simpl; intros s; auto. rewrite IH. apply deregister_length. Qed.
+Lemma reregister_all_length l : forall s, length (mons (reregister_all l s)) = length (mons s).
+Proof. induction l as [|a tl IH]; simpl; intros s; auto. rewrite IH. apply reregister_length. Qed.
+
+Lemma trainer_mode_TI s ti mode : Inv1 s -> TI s -> TI (trainer_mode s ti mode).
+Proof.
+  intros [HWs P] T. pose proof T as (T1 & T2 & T3 & T4 & T5 & T6). unfold trainer_mode.
+  set (s1 := upd_trainer ti (set_training mode) s).
+  set (ms := pool_monitors (get_trainer s1 ti)).
+  assert (G : forall k, get_trainer s1 k = set_training mode (get_trainer s ti) /\ k = ti \/
+                        get_trainer s1 k = get_trainer s k /\ (k <> ti \/ length (trainers s) <= ti)).
+  { intros k. unfold s1. rewrite get_trainer_upd. destruct (Nat.eqb ti k) eqn:E; simpl.
+    - apply Nat.eqb_eq in E. destruct (Nat.ltb ti (length (trainers s))) eqn:L; auto.
+      apply Nat.ltb_ge in L. auto.
+    - apply Nat.eqb_neq in E. auto. }
+  assert (Pm : forall k, pool_mids (get_trainer s1 k) = pool_mids (get_trainer s k) /\
+                         pool_named (get_trainer s1 k) = pool_named (get_trainer s k) /\
+                         t_cells (get_trainer s1 k) = t_cells (get_trainer s k) /\
+                         t_alive (get_trainer s1 k) = t_alive (get_trainer s k) /\
+                         t_pool (get_trainer s1 k) = t_pool (get_trainer s k) /\
+                         (keys_ok (get_trainer s k) -> keys_ok (get_trainer s1 k))).
+  { intros k. destruct (G k) as [[-> ->]|[-> _]]; [|tauto].
+    split; [reflexivity|]. split; [reflexivity|]. split; [reflexivity|]. split; [reflexivity|]. split; [reflexivity|].
+    intros K. exact K. }
+  assert (Hms : forall j, mem_nat j ms = true <-> In j (pool_mids (get_trainer s ti))).
+  { intros j. unfold ms. rewrite mem_nat_In, pool_monitors_In. destruct (Pm ti) as (-> & _). reflexivity. }
+  assert (Tr : forall (sx : state), trainers sx = trainers s1 -> get_trainer sx = get_trainer s1).
+  { intros sx E. unfold get_trainer. rewrite E. reflexivity. }
+  destruct mode.
+  - (* train(): register everything in the pool *)
+    assert (V : forall i, In i ms -> i < length (mons s1)).
+    { intros i Hi. apply mem_nat_In in Hi. apply Hms in Hi. apply (P ti); auto. }
+    pose proof (reregister_all_mon ms s1) as M. destruct (reregister_all_trainers ms s1) as (Trs & _).
+    pose proof (reregister_all_quiet ms s1) as (L1 & _ & L3 & _).
+    set (s' := reregister_all ms s1) in *.
+    unfold TI. rewrite (Tr s' Trs).
+    split; [|split; [|split; [|split; [|split]]]].
+    + intros k. destruct (Pm k) as (_ & _ & _ & _ & _ & K). auto.
+    + intros k. destruct (Pm k) as (_ & _ & A & B & C & _). rewrite A, B, C. apply T2.
+    + intros k cn mn i c. destruct (Pm k) as (_ & A & B & _). rewrite A, B. intros H1 H2.
+      rewrite M by auto. change (get_mon s1 i) with (get_mon s i).
+      destruct (T3 k cn mn i c H1 H2). destruct (mem_nat i ms); auto.
+    + intros t1 t2 i. destruct (Pm t1) as (-> & _). destruct (Pm t2) as (-> & _). apply T4.
+    + intros k i. destruct (Pm k) as (-> & _). intros H1 H2. rewrite M in H2 by auto. change (get_mon s1 i) with (get_mon s i) in H2.
+      destruct (G k) as [[-> ->]|[-> N]]; [reflexivity|].
+      destruct (mem_nat i ms) eqn:Em.
+      * apply Hms in Em. destruct N as [N|N]; [exfalso; apply N; apply (T4 k ti i); auto|].
+        rewrite (dummy_trainer_oob s ti) in Em by auto. destruct Em.
+      * apply (T5 k i); auto.
+    + intros i Hi. rewrite M by auto. change (get_mon s1 i) with (get_mon s i).
+      destruct (mem_nat i ms) eqn:Em.
+      * apply Hms in Em. intros _. pose proof (TI_pool_alive _ _ _ T Em) as Al. destruct (get_mon s i); simpl in *; auto.
+      * intros H. apply T6; auto. unfold s' in Hi. rewrite reregister_all_length in Hi. exact Hi.
+  - (* eval(): deregister everything in the pool *)
+    pose proof (deregister_all_mon ms s1) as M. destruct (deregister_all_trainers ms s1) as (Trs & _).
+    set (s' := deregister_all ms s1) in *.
+    unfold TI. rewrite (Tr s' Trs).
+    split; [|split; [|split; [|split; [|split]]]].
+    + intros k. destruct (Pm k) as (_ & _ & _ & _ & _ & K). auto.
+    + intros k. destruct (Pm k) as (_ & _ & A & B & C & _). rewrite A, B, C. apply T2.
+    + intros k cn mn i c. destruct (Pm k) as (_ & A & B & _). rewrite A, B. intros H1 H2.
+      rewrite M. change (get_mon s1 i) with (get_mon s i).
+      destruct (T3 k cn mn i c H1 H2). destruct (mem_nat i ms); auto.
+    + intros t1 t2 i. destruct (Pm t1) as (-> & _). destruct (Pm t2) as (-> & _). apply T4.
+    + intros k i. destruct (Pm k) as (-> & _). intros H1 H2. rewrite M in H2. change (get_mon s1 i) with (get_mon s i) in H2.
+      destruct (mem_nat i ms) eqn:Em; [destruct (get_mon s i); simpl in H2; discriminate|].
+      destruct (G k) as [[-> ->]|[-> _]]; [|apply (T5 k i); auto].
+      exfalso. assert (mem_nat i ms = true) by (apply Hms; auto). congruence.
+    + intros i Hi. rewrite M. change (get_mon s1 i) with (get_mon s i).
+      pose proof (deregister_all_quiet ms s1) as (L1 & _).
+      destruct (mem_nat i ms); [destruct (get_mon s i); simpl; discriminate|].
+      intros H. apply T6; auto. unfold s' in Hi. rewrite deregister_all_length in Hi. exact Hi.
+Qed.
+
+(* ------------------------------------------------------------------ garbage collection *)
+Lemma referenced_ext s s' i : trainers s' = trainers s -> referenced s' i = referenced s i.
+Proof. intros E. unfold referenced. rewrite E. reflexivity. Qed.
+
+Lemma referenced_spec s i :
+  referenced s i = true <-> exists t, t_alive (get_trainer s t) = true /\ In i (pool_mids (get_trainer s t)).
+Proof.
+  unfold referenced. rewrite existsb_exists. split.
+  - intros (t & H1 & H2). apply andb_true_iff in H2 as [H2 H3]. apply mem_nat_In in H3.
+    apply In_nth with (d := dummy_trainer) in H1 as (n & Hn & E). exists n. unfold get_trainer. rewrite E. auto.
+  - intros (n & H1 & H2). destruct (Nat.lt_ge_cases n (length (trainers s))) as [Hn|Hn].
+    + exists (get_trainer s n). split; [apply nth_In; auto|]. rewrite H1. simpl. apply mem_nat_In. exact H2.
+    + rewrite dummy_trainer_oob in H1 by auto. discriminate.
+Qed.
+
+Lemma kill_mon k s j :
+  get_mon (upd_mon k set_dead (deregister k s)) j = if Nat.eqb k j then set_dead (get_mon s j) else get_mon s j.
+Proof.
+  destruct (Nat.eqb k j) eqn:E.
+  - apply Nat.eqb_eq in E; subst j. destruct (Nat.lt_ge_cases k (length (mons s))) as [Hk|Hk].
+    + rewrite get_mon_upd_same by (rewrite deregister_length; auto). rewrite deregister_mon, Nat.eqb_refl.
+      destruct (get_mon s k); reflexivity.
+    + rewrite get_mon_upd_oob by (rewrite deregister_length; auto). rewrite deregister_mon, Nat.eqb_refl.
+      unfold get_mon. rewrite nth_overflow by auto. reflexivity.
+  - apply Nat.eqb_neq in E. rewrite get_mon_upd_other by auto. rewrite deregister_mon.
+    apply Nat.eqb_neq in E. rewrite E. reflexivity.
+Qed.
+
+Lemma collect_from_mon n : forall k s j,
+  get_mon (collect_from k n s) j =
+  (if Nat.leb k j && Nat.ltb j (k + n) && m_alive (get_mon s j) && negb (referenced s j)
+   then set_dead (get_mon s j) else get_mon s j) /\
+  trainers (collect_from k n s) = trainers s /\ length (mons (collect_from k n s)) = length (mons s) /\
+  cmon (collect_from k n s) = cmon s /\ accs (collect_from k n s) = accs s.
+Proof.
+  induction n as [|n IH]; simpl; intros k s j.
+  - replace (Nat.ltb j (k + 0)) with (negb (Nat.leb k j)).
+    + destruct (Nat.leb k j); simpl; auto.
+    + rewrite Nat.add_0_r. destruct (Nat.leb k j) eqn:A; destruct (Nat.ltb j k) eqn:B; auto;
+        [apply Nat.leb_le in A; apply Nat.ltb_lt in B; lia|apply Nat.leb_gt in A; apply Nat.ltb_ge in B; lia].
+  - set (s1 := if m_alive (get_mon s k) && negb (referenced s k) then upd_mon k set_dead (deregister k s) else s).
+    assert (Tr1 : trainers s1 = trainers s /\ length (mons s1) = length (mons s) /\ cmon s1 = cmon s /\ accs s1 = accs s).
+    { unfold s1. destruct (m_alive (get_mon s k) && negb (referenced s k)); auto. simpl.
+      destruct (deregister_others k s) as (A & B & C). rewrite length_upd, deregister_length. auto. }
+    destruct Tr1 as (Tr1 & L1 & C1 & A1).
+    assert (M1 : forall x, get_mon s1 x = if Nat.eqb k x && m_alive (get_mon s x) && negb (referenced s x)
+                                          then set_dead (get_mon s x) else get_mon s x).
+    { intros x. unfold s1. destruct (Nat.eqb k x) eqn:E.
+      - apply Nat.eqb_eq in E; subst x. simpl. destruct (m_alive (get_mon s k) && negb (referenced s k)); auto.
+        rewrite kill_mon, Nat.eqb_refl. reflexivity.
+      - simpl. destruct (m_alive (get_mon s k) && negb (referenced s k)); auto. rewrite kill_mon, E. reflexivity. }
+    destruct (IH (S k) s1 j) as (IH1 & IH2 & IH3 & IH4 & IH5).
+    split; [|rewrite IH2, IH3, IH4, IH5; auto].
+    rewrite IH1. rewrite (referenced_ext s s1 j Tr1). rewrite M1.
+    destruct (Nat.eqb k j) eqn:E.
+    + apply Nat.eqb_eq in E; subst j.
+      assert (H : Nat.leb (S k) k = false) by (apply Nat.leb_gt; lia). rewrite H.
+      assert (H0 : Nat.leb k k = true) by (apply Nat.leb_le; lia). rewrite H0.
+      assert (H1 : Nat.ltb k (k + S n) = true) by (apply Nat.ltb_lt; lia). rewrite H1.
+      cbn [andb]. reflexivity.
+    + apply Nat.eqb_neq in E.
+      assert (H : Nat.leb (S k) j = Nat.leb k j).
+      { destruct (Nat.leb (S k) j) eqn:A; destruct (Nat.leb k j) eqn:B; auto;
+          [apply Nat.leb_le in A; apply Nat.leb_gt in B; lia|apply Nat.leb_gt in A; apply Nat.leb_le in B; lia]. }
+      rewrite H. replace (S k + n) with (k + S n) by lia. cbn [andb]. reflexivity.
+Qed.
+
+Lemma collect_TI s : TI s -> TI (collect s).
+Proof.
+  intros T. pose proof T as (T1 & T2 & T3 & T4 & T5 & T6). unfold collect, prune_cmon. apply TI_cmon.
+  set (s' := collect_from 0 (length (mons s)) s).
+  assert (M : forall j, get_mon s' j = if m_alive (get_mon s j) && negb (referenced s j) then set_dead (get_mon s j) else get_mon s j).
+  { intros j. destruct (collect_from_mon (length (mons s)) 0 s j) as (A & _). unfold s'. rewrite A. simpl.
+    destruct (Nat.lt_ge_cases j (length (mons s))) as [Hj|Hj].
+    - apply Nat.ltb_lt in Hj. rewrite Hj. reflexivity.
+    - unfold get_mon. rewrite nth_overflow by auto. simpl. destruct (Nat.ltb j (length (mons s))); reflexivity. }
+  destruct (collect_from_mon (length (mons s)) 0 s 0) as (_ & Tr & L & _). fold s' in Tr, L.
+  assert (Ref : forall t i, In i (pool_mids (get_trainer s t)) -> get_mon s' i = get_mon s i).
+  { intros t i H. rewrite M. assert (R : referenced s i = true).
+    { apply referenced_spec. exists t. split; auto. destruct (t_alive (get_trainer s t)) eqn:E; auto.
+      destruct (T2 t E) as [P _]. unfold pool_mids in H. rewrite P in H. destruct H. }
+    rewrite R. rewrite andb_false_r. reflexivity. }
+  unfold TI, get_trainer. rewrite Tr. fold (get_trainer s).
+  split; [exact T1|]. split; [exact T2|]. split; [|split; [exact T4|split]].
+  - intros t cn mn i c H1 H2. rewrite (Ref t i); [eapply T3; eauto|]. apply pool_mids_named. eauto.
+  - intros t i H1 H2. rewrite (Ref t i H1) in H2. eapply T5; eauto.
+  - intros i Hi. rewrite L in Hi. rewrite M. destruct (m_alive (get_mon s i) && negb (referenced s i)).
+    + destruct (get_mon s i); simpl; discriminate.
+    + apply T6; auto.
+Qed.
+
+(* after collection every live monitor is in the pool of a live trainer *)
+Definition Collected (s : state) : Prop :=
+  forall i, i < length (mons s) -> m_alive (get_mon s i) = true -> referenced s i = true.
+
+Lemma collect_Collected s : Collected (collect s).
+Proof.
+  unfold Collected, collect, prune_cmon. intros i Hi.
+  change (get_mon (set_cmon _ (collect_from 0 (length (mons s)) s))) with (get_mon (collect_from 0 (length (mons s)) s)).
+  destruct (collect_from_mon (length (mons s)) 0 s i) as (A & Tr & L & _). simpl in Hi. rewrite L in Hi.
+  rewrite A. simpl. apply Nat.ltb_lt in Hi. rewrite Hi. simpl.
+  assert (R : forall x, referenced (set_cmon x (collect_from 0 (length (mons s)) s)) i = referenced s i).
+  { intros x. apply referenced_ext. simpl. exact Tr. }
+  rewrite R. destruct (m_alive (get_mon s i)) eqn:Al; simpl.
+  - destruct (referenced s i); simpl; auto.
+  - rewrite Al. discriminate.
+Qed.
+
+(* ------------------------------------------------------------------ the remaining operations *)
+Lemma clear_all_TI l s : TI s -> TI (clear_all l s).
+Proof.
+  apply TI_mons_change.
+  - apply clear_all_others.
+  - pose proof (clear_all_quiet l s) as (L & _). revert s L. induction l as [|a tl IH]; simpl; intros s L; auto.
+    rewrite IH; [apply length_mons_upd_mon|]. pose proof (clear_all_quiet tl (upd_mon a (set_fresh true) s)) as (L2 & _). exact L2.
+  - intros j. rewrite clear_all_mon. destruct (mem_nat j l); auto.
+Qed.
+
+Lemma layer_step_TI s l s' r : HW s -> layer_step s l = (s', r) -> TI s -> TI s'.
+Proof.
+  intros H E T. destruct (Nat.lt_ge_cases l (length (layers s))) as [Hl|Hl].
+  - destruct (layer_step_frame _ _ _ _ H Hl E) as (Tr & _ & _ & L & _).
+    eapply TI_mons_change; eauto. intros j.
+    destruct (layer_step_at_most_once _ _ _ _ H Hl E j) as [->|(_ & rd & ->)]; auto.
+  - unfold layer_step in E. rewrite upd_layer_oob in E by auto. unfold get_layer in E. rewrite nth_overflow in E by auto.
+    simpl in E. inversion E; subst. exact T.
+Qed.
+
+Lemma TI_ext s s' : trainers s' = trainers s -> mons s' = mons s -> TI s -> TI s'.
+Proof.
+  intros Tr M. apply TI_mons_change; auto; [rewrite M; auto|]. intros j. unfold get_mon. rewrite M. auto.
+Qed.
+
+Lemma step_raw_TI w s o s' r : op_enabled s o = true -> step_raw w s o = (s', r) -> Inv1 s -> TI s -> TI s'.
+Proof.
+  destruct o; simpl; intros En E I T.
+  - eapply register_cell_TI; eauto.
+  - eapply del_cell_TI; eauto.
+  - eapply add_monitor_TI; eauto.
+  - eapply pool_del_monitor_TI; eauto.
+  - inversion E; subst. apply trainer_mode_TI; auto.
+  - inversion E; subst. eapply TI_ext; [| |exact T]; reflexivity.
+  - destruct I as [H _]. eapply layer_step_TI; eauto.
+  - unfold trainer_step in E. apply trainer_cells_step_frame in E as (A & B & C & D). eapply TI_ext; eauto.
+  - inversion E; subst. apply clear_all_TI; auto.
+  - inversion E; subst. unfold op_enabled in En. simpl in En.
+    pose proof T as (T1 & T2 & T3 & T4 & T5 & T6).
+    assert (G : forall k, get_trainer (upd_trainer t kill_trainer s) k = kill_trainer (get_trainer s t) /\ k = t \/
+                          get_trainer (upd_trainer t kill_trainer s) k = get_trainer s k).
+    { intros k. rewrite get_trainer_upd. destruct (Nat.eqb t k && Nat.ltb t (length (trainers s))) eqn:E3; auto.
+      apply andb_true_iff in E3 as [E3 _]. apply Nat.eqb_eq in E3. auto. }
+    unfold TI. change (mons (upd_trainer t kill_trainer s)) with (mons s).
+    change (get_mon (upd_trainer t kill_trainer s)) with (get_mon s).
+    split; [|split; [|split; [|split; [|split]]]].
+    + intros k. destruct (G k) as [[-> _]| -> ]; auto. unfold kill_trainer, keys_ok; simpl.
+      split; [constructor|]. split; [reflexivity|]. split; [constructor|]. intros cn g [].
+    + intros k. destruct (G k) as [[-> _]| -> ]; auto.
+    + intros k cn mn i c. destruct (G k) as [[-> _]| -> ]; [intros []|apply T3].
+    + intros t1 t2 i. destruct (G t1) as [[-> _]| -> ]; [intros []|]. destruct (G t2) as [[-> _]| -> ]; [intros _ []|apply T4].
+    + intros k i. destruct (G k) as [[-> _]| -> ]; [intros []|apply T5].
+    + exact T6.
+Qed.
+
+Theorem step_TI w s o : Inv1 s -> TI s -> TI (fst (step w s o)).
+Proof.
+  intros I T. unfold step. destruct (op_enabled s o) eqn:En; [|exact T].
+  destruct (step_raw w s o) as [s1 r] eqn:E. simpl. apply collect_TI. eapply step_raw_TI; eauto.
+Qed.
+
+Theorem run_TI w ops : forall s, Inv1 s -> TI s -> Inv1 (run w s ops) /\ TI (run w s ops).
+Proof.
+  induction ops as [|o tl IH]; simpl; intros s I T; auto. apply IH; [apply step_Inv1; auto|apply step_TI; auto].
+Qed.
+
+(* ------------------------------------------------------------------ headline consequences, for every operation
+   sequence from the initial state *)
+Definition reachable (w : world) (tys : list ttype) (s : state) : Prop := exists ops, s = run w (init_state w tys) ops.
+
+Lemma reachable_inv w tys s : reachable w tys s -> Inv1 s /\ TI s.
+Proof. intros [ops ->]. apply run_TI; [apply Inv1_init|apply TI_init]. Qed.
+
+(* No monitor of a trainer that is in eval mode is hooked; hence (layer_step_at_most_once) it records nothing. *)
+Theorem eval_trainer_records_nothing w tys s t i l s' r :
+  reachable w tys s -> In i (pool_mids (get_trainer s t)) -> t_training (get_trainer s t) = false ->
+  layer_step s l = (s', r) -> get_mon s' i = get_mon s i.
+Proof.
+  intros R Hin Hev E. destruct (reachable_inv _ _ _ R) as [[H P] T].
+  destruct T as (_ & _ & _ & _ & T5 & _).
+  destruct (Nat.lt_ge_cases l (length (layers s))) as [Hl|Hl].
+  - destruct (layer_step_at_most_once _ _ _ _ H Hl E i) as [K|(K & _)]; auto.
+    unfold records in K. apply andb_true_iff in K as [K _]. apply andb_true_iff in K as [K _].
+    specialize (T5 t i Hin K). congruence.
+  - unfold layer_step in E. rewrite upd_layer_oob in E by auto. unfold get_layer in E. rewrite nth_overflow in E by auto.
+    simpl in E. inversion E; subst. reflexivity.
+Qed.
+
+(* every monitor belongs to exactly one trainer: pools of different trainers are disjoint *)
+Theorem pools_disjoint w tys s t1 t2 i :
+  reachable w tys s -> In i (pool_mids (get_trainer s t1)) -> In i (pool_mids (get_trainer s t2)) -> t1 = t2.
+Proof. intros R. destruct (reachable_inv _ _ _ R) as [_ (_ & _ & _ & T4 & _)]. apply T4. Qed.
+
+Lemma Collected_init w tys : Collected (init_state w tys).
+Proof. intros i Hi. simpl in Hi. lia. Qed.
+
+Lemma step_Collected w s o : Collected s -> Collected (fst (step w s o)).
+Proof.
+  intros C. unfold step. destruct (op_enabled s o); [|exact C].
+  destruct (step_raw w s o) as [s1 r]. simpl. apply collect_Collected.
+Qed.
+
+Lemma run_Collected w ops : forall s, Collected s -> Collected (run w s ops).
+Proof. induction ops as [|o tl IH]; simpl; intros s C; auto. apply IH, step_Collected; auto. Qed.
+
+(* No dangling recorder: whatever was removed, dropped or replaced, every monitor that is still hooked on a layer
+   belongs to the pool of a live trainer which is in training mode. *)
+Theorem registered_monitor_has_training_owner w tys s i :
+  reachable w tys s -> i < length (mons s) -> m_reg (get_mon s i) = true ->
+  exists t, t_alive (get_trainer s t) = true /\ t_training (get_trainer s t) = true /\ In i (pool_mids (get_trainer s t)).
+Proof.
+  intros R Hi Hr. destruct (reachable_inv _ _ _ R) as [_ T]. destruct R as [ops ->].
+  pose proof (run_Collected w ops _ (Collected_init w tys)) as C.
+  destruct T as (_ & _ & _ & _ & T5 & T6).
+  specialize (C i Hi (T6 i Hi Hr)). apply referenced_spec in C as (t & A & B). exists t. split; auto. split; auto.
+  apply (T5 t i); auto.
 Qed.
